@@ -1,7 +1,7 @@
-(* Proofs about Dataset/Handle.v: histories through one long-lived handle refine the disk-level history model (every
+(* Proofs about Dataset/DsHandle.v: histories through one long-lived handle refine the disk-level history model (every
    operation list); the two faulty handle rules are refuted by computed witnesses.                                      *)
 From Coq Require Import NArith ZArith List Bool Arith.
-From Pq Require Import Base.Bytes Dataset.FS Dataset.FsPaths Dataset.Edit Dataset.Handle.
+From Pq Require Import Base.Bytes Dataset.FS Dataset.FsPaths Dataset.Edit Dataset.DsHandle.
 Import ListNotations.
 Local Open Scope N_scope.
 
